@@ -5,7 +5,7 @@ import pgen
 PID = "C05"
 RULE = ("glob patterns from a token grammar (literals, '*', '?', [set], [!set], ranges, ']' first in a set, lone ']', "
         "odd fragments '**' '***' '[' '[!]'), plain strings, and dewey patterns; names sampled FROM the pattern, one-edit "
-        "neighbours biased to index 0/1 (where the fast reject looks), names of length 0 and 1; "
+        "neighbours biased to index 0/1 (where the fast reject looks), names of length 0 and 1; plus EVERY pattern of length <= 3 (thorough 4) over 'a1-*?[]!{},<>=A' (all dispatch kinds) against a panel of short names; "
         "non-trivial = pattern has a metacharacter or differs from the name, and the name has length >= 1")
 FUNCTIONAL = True
 ASSUMPTIONS = ["glob crate 0.3.1 Pattern::new/matches with default MatchOptions is modelled (Pattern.v), not verified"]
@@ -24,6 +24,21 @@ def generate(rng, tier):
     for p, nme in fixed:
         cases.append(Case("pat.match", [enc(p), enc(nme)], tag="fixed"))
         cases.append(Case("pat.new", [enc(p)], tag="fixed"))
+    # small scope, exhaustively: every pattern of length <= 3 (thorough: 4) over an alphabet holding every character the
+    # dispatch, the fast reject and the glob compiler look at, against a panel of short names
+    import itertools
+    sigma = "a1-*?[]!{},<>=A"
+    panel = ["", "a", "1", "-", "aa", "a1", "a-1", "A-1", "a-", "-1", "a]", "1a", "a*", "!"]
+    maxlen = 3 if tier == "quick" else 4
+    cnt = 0
+    for ln in range(0, maxlen + 1):
+        for tup in itertools.product(sigma, repeat=ln):
+            cnt += 1
+            p = "".join(tup)
+            cases.append(Case("pat.new", [enc(p)], tag="scope"))
+            names = panel if ln <= 2 else [panel[(cnt + k * 5) % len(panel)] for k in range(3)] + [p[:1] + "-1", p.replace("*", "a").replace("?", "1")]
+            for nme in names:
+                cases.append(Case("pat.match", [enc(p), enc(nme)], tag="scope"))
     for _ in range(n):
         r = rng.random()
         if r < 0.7:
